@@ -7,6 +7,7 @@ From Coq Require Import List Arith Bool Ascii String Permutation.
 From Echo.Router Require Import Spec2 Fuel Refine Insert InsProof Walk Live Toks Build Sound Complete Allow Top Methods.
 From Echo Require Import Gen.Src_methods.
 Import ListNotations.
+From Echo Require Import PropLemmas.C03.
 
 (* a path no registered pattern (of any method, RouteNotFound included) matches: 404 *)
 Theorem C03_404 : forall rs m p, wf_table rs ->
@@ -22,11 +23,7 @@ Print Assumptions C03_404_method_independent.
 
 Theorem C03_matched_by_other_method_not_404 : forall rs m m' p r, wf_table rs -> m' <> NF ->
   In r rs -> rt_m r = m' -> matchT (rt_toks r) p -> dispatch (build rs) m p <> Miss None.
-Proof.
-  intros rs m m' p r HWf Hm' Hin Hr HM H.
-  pose proof (instance_404_method_indep rs m m' p HWf H) as H'.
-  pose proof (instance_complete rs m' p r HWf Hm' Hin Hr HM) as F. rewrite H' in F. exact F.
-Qed.
+Proof. exact C03_matched_by_other_method_not_404_l. Qed.
 Print Assumptions C03_matched_by_other_method_not_404.
 
 (* every method advertised for the 405 position, sent to the same path, is really served *)
